@@ -57,6 +57,11 @@ def geometry(facts, contracts=None):
             return ('slice', n)
         cs = dict(contracts or {})
         cs["replace_with::replace_with_and_return"] = c_replace_with
+
+        def c_state_drive(it_, st, args, dty):
+            v = c_replace_with(it_, st, args, dty)
+            return ('tuple', [v, it_.opaque()])
+        cs["parser::request::State::drive"] = c_state_drive
         it = R.Interp(facts, ["input_len"], len_of="input", contracts=cs, inline={RP + "::move_input"})
         ends = it.run(b)
         rem_of = lambda e: e.heap.get("@rem")
